@@ -11,6 +11,7 @@ import VaxisModel.Lemmas.ParserAbs
 import VaxisModel.Lemmas.ParserDcs
 import VaxisModel.Lemmas.ParserText
 import VaxisModel.Lemmas.ParserLeak
+import VaxisModel.Lemmas.ParserOut
 
 namespace VaxisModel.Props.C02
 open VaxisModel.Model.ParserTable VaxisModel.Model.Parser
@@ -431,5 +432,12 @@ theorem no_leak (s : PState) (hd : VaxisModel.Lemmas.ParserLeak.dead s.state = t
 -- non-vacuity: ground with stale parameter bytes and intermediates from `ESC [ 3 ; 1 $` + CAN
 example : VaxisModel.Lemmas.ParserLeak.dead (run PState.init [0x1B, 0x5B, 0x33, 0x3B, 0x31, 0x24, 0x18]).1.state = true ∧
     (run PState.init [0x1B, 0x5B, 0x33, 0x3B, 0x31, 0x24, 0x18]).1.params = [0x33, 0x3B, 0x31] := by decide
+
+/-- **Every parameter of every delivered CSI has at least one element** (so `p[0]` in the handlers
+    of C03/C05/C18 cannot be out of range) — for every table, state and input. -/
+theorem params_nonempty (T : Table) (s : PState) (i : Inp) (inter : List Nat) (params : List (List Int))
+    (final : Nat) (h : Seq.csi inter params final ∈ (step T s i).out) : ∀ q ∈ params, q ≠ [] :=
+  VaxisModel.Lemmas.ParserOut.step_forall VaxisModel.Lemmas.ParserOut.CsiOk
+    VaxisModel.Lemmas.ParserOut.applyAct_csiOk (by intro i p f h; cases h) T s i _ h inter params final rfl
 
 end VaxisModel.Props.C02
